@@ -14,7 +14,8 @@ RULE = ("readers R in 1..3 (real threads running the real SharedDictDataset.__ge
         "get(-2), out-of-range get(2), get(-3)], clear, release = the "
         "reader object is garbage collected} of length <= 4 "
         "for 1 and 2 readers and <= 3 for 3 readers, with exact load accounting over all readers; readers are copies of ONE cache "
-        "object (fork picture: private attributes duplicated, manager dicts shared), also with a wrapped dataset whose first load of "
+        "object (fork picture: deep copy - private attributes duplicated, manager dicts shared; spawn picture: pickle round trip; "
+        "the post-cache transform travels with the copy), also with a wrapped dataset whose first load of "
         "every sample fails (the error must reach the caller, nothing may be cached, the retry loads); states = distinct final "
         "(cache content, load counters) states, transitions = scheduled shared-dict operations; SchedDict is bound to the real "
         "multiprocessing Manager dict by replaying all operation sequences of depth <= 3 against both")
@@ -69,6 +70,34 @@ def same(a, b):
     if torch.is_tensor(a) or torch.is_tensor(b):
         return torch.is_tensor(a) and torch.is_tensor(b) and a.shape == b.shape and torch.equal(a, b)
     return a == b
+
+
+class Xf:
+    """The post-cache transform: a picklable object (it travels with the cache object into spawned readers). Calls are
+    counted per execution in a class-level table, so copies of the transform count into the same cell."""
+    CALLS = {}
+
+    def __init__(self, tkind, token):
+        self.tkind, self.token = tkind, token
+
+    def __call__(self, v):
+        import torch
+        Xf.CALLS[self.token] = Xf.CALLS.get(self.token, 0) + 1
+        if self.tkind == "inplace":
+            if isinstance(v, dict):
+                v["t"] = 1
+                return v
+            if isinstance(v, list):
+                v.append("t")
+                return v
+            if torch.is_tensor(v):
+                v += 1000
+                return v
+        return apply_expected("pure", v)
+
+
+COPY_HOW = ["deepcopy"]  # how a reader gets its copy of the cache object: 'deepcopy' (fork) or 'pickle' (spawn / forkserver)
+TOKEN = [0]
 
 
 def make_transform(tkind, counter):
@@ -162,6 +191,8 @@ class patched:
         multiprocessing.Manager = FakeManager
         CURRENT["sched"] = self.sched
         CURRENT["dicts"] = []
+        from ..core import sched as _sched
+        _sched._PROXIES.clear()
         # a manager object the library may have memoised at module level belongs to an earlier execution
         for k, v in list(mod.__dict__.items()):
             if isinstance(v, FakeManager):
@@ -183,16 +214,22 @@ def make_readers(n, kind, tkind):
     owns privately (the wrapped dataset and its load counter, attributes of the cache object) is duplicated by the copy;
     manager dicts are proxies, so the copies still refer to the same dict. Call inside `patched`."""
     import copy
+    import pickle
     import kappadata.caching.shared_dict_dataset as mod
-    master = mod.SharedDictDataset(Base(kind), transform=None)
+    TOKEN[0] += 1
+    Xf.CALLS.pop(TOKEN[0] - 1, None)
+    Xf.CALLS[TOKEN[0]] = 0
+    master = mod.SharedDictDataset(Base(kind), transform=None if tkind == "none" else Xf(tkind, TOKEN[0]))
     readers = []
     for _ in range(n):
-        r = copy.deepcopy(master)
-        counter = [0]
-        r.transform = make_transform(tkind, counter)
-        r._counter = counter
+        # the copy is all a reader gets: nothing is patched onto it afterwards
+        r = copy.deepcopy(master) if COPY_HOW[0] == "deepcopy" else pickle.loads(pickle.dumps(master))
         readers.append(r)
     return readers
+
+
+def transform_calls():
+    return Xf.CALLS.get(TOKEN[0], 0)
 
 
 def shared_snapshot():
@@ -242,8 +279,9 @@ def check_results(programs, kind, tkind, results, readers, sched):
                 exp = apply_expected(tkind, payload(kind, i))
                 if not same(v, exp):
                     return "value_differs_from_wrapped_dataset", f"reader {t} cached[{i}] = {v!r}, transform(base[{i}]) = {exp!r}"
-        if tkind != "none" and readers[t]._counter[0] != n_get:
-            return "transform_not_applied_once_per_access", f"reader {t}: {readers[t]._counter[0]} transform calls for {n_get} accesses"
+    total = sum(1 for res in results for (what, _, _) in res if what == "get")
+    if tkind != "none" and transform_calls() != total:
+        return "transform_not_applied_once_per_access", f"{transform_calls()} transform calls for {total} accesses"
     return None, None
 
 
@@ -393,21 +431,26 @@ def seq_task(args):
                     continue  # three readers: non-negative indices only (bounds the product)
                 for flaky in ((False, True) if (R <= 2 and kind in ("int", "list") and all(o in (0, 1, "clear", "release") for _, o in ops))
                               else (False,)):
+                  # readers that got their copy through pickle (spawn / forkserver) for two payload kinds and short histories
+                  for how in (("deepcopy", "pickle") if (kind in ("int", "tensor") and L <= 3 and not flaky) else ("deepcopy",)):
                     p.evaluations += 1
                     p.traces += 1
                     p.transitions += L
                     FLAKY[0] = flaky
+                    COPY_HOW[0] = how
                     try:
                         k, info = sequential_check(ops, kind, tkind, R)
                     finally:
                         FLAKY[0] = False
+                        COPY_HOW[0] = "deepcopy"
                     if k:
-                        p.violation(f"C19:sequential:{k}|readers={'1' if R == 1 else 'many'}{'|failing_loads' if flaky else ''}",
-                                    dict(sequential=True, ops=[list(o) for o in ops], readers=R, payload=kind, transform=tkind, flaky=flaky),
-                                    f"payload={kind} transform={tkind} readers={R} failing_first_loads={flaky}: {info}")
+                        p.violation(f"C19:sequential:{k}|readers={'1' if R == 1 else 'many'}{'|failing_loads' if flaky else ''}"
+                                    f"{'|pickled_copy' if how == 'pickle' and 'other_spelling' not in k else ''}",
+                                    dict(sequential=True, ops=[list(o) for o in ops], readers=R, payload=kind, transform=tkind, flaky=flaky, how=how),
+                                    f"payload={kind} transform={tkind} readers={R} failing_first_loads={flaky} copy={how}: {info}")
                     else:
-                        p.state(("seq", kind, R, ops, info, flaky))
-                        p.observe(("seq", kind, tkind, R, ops, flaky))
+                        p.state(("seq", kind, R, ops, info, flaky, how))
+                        p.observe(("seq", kind, tkind, R, ops, flaky, how))
     return p
 
 
@@ -482,10 +525,12 @@ def replay(case):
         ops = tuple((int(o[0]), o[1] if o[1] in ("clear", "release") else int(o[1])) if isinstance(o, (list, tuple)) else (0, o if o == "clear" else int(o))
                     for o in case["ops"])
         FLAKY[0] = bool(case.get("flaky"))
+        COPY_HOW[0] = case.get("how") or "deepcopy"
         try:
             k, info = sequential_check(ops, case["payload"], case["transform"], int(case.get("readers", 1)))
         finally:
             FLAKY[0] = False
+            COPY_HOW[0] = "deepcopy"
         return None if k is None else f"{k}: {info}"
     progs = tuple(tuple(o if o == "clear" else int(o) for o in pr) for pr in case["programs"])
     res = run_schedule(progs, case["payload"], case["transform"], Chooser(tuple(case["schedule"])), case.get("bound"))
